@@ -24,7 +24,8 @@ def write_module(res, gen, K):
     ov = {k: 'K_' + k for k in list(defs) + ['KindChoices', 'ClsChoices']}
     ov.update(Builders='M', Receivers='M')
     consts = {'MaxDepth': K['MaxDepth'], 'MaxLayers': K['MaxLayers'], 'MaxGen': K['MaxGen'],
-              'Phased': 'FALSE', 'Resnap': 'TRUE', 'Staging': 'TRUE'}
+              'Phased': 'FALSE', 'Resnap': 'TRUE', 'Staging': 'TRUE', 'Again': 'TRUE',
+              'KeepSnap': 1000000}      # a snapshot is kept, and read, until get_static_map() is called again
     consts.update({s: 'TRUE' for s in rc.SWITCHES})
     with open(os.path.join(res.specdir, gen + '.tla'), 'w') as f:
         f.write('---- MODULE %s ----\nEXTENDS ResourcesTrace\n%s\n====\n' % (gen, '\n'.join(lines)))
